@@ -1059,6 +1059,12 @@ func (gs *GossipSubRouter) handleIWant(p peer.ID, ctl *pb.ControlMessage) []*pb.
 func (gs *GossipSubRouter) handleGraft(p peer.ID, ctl *pb.ControlMessage) []*pb.ControlPrune {
 	var prune []string
 
+	// we can only have mesh links with peers we have an outbound stream to; a peer whose
+	// outbound stream is gone (or not yet there) would never be removed from the mesh again.
+	if _, connected := gs.peers[p]; !connected {
+		return nil
+	}
+
 	doPX := gs.doPX
 	score := gs.score.Score(p)
 	now := time.Now()
